@@ -8,6 +8,10 @@ from connprops import prep, replay  # noqa: F401
 
 def regenerate_table(chk, which="Access"):
     """returns (rows, coq_ok, coq_output).  rows: list of dict(loc, role, write, locks{name:excl}, own, where)"""
+    with vlib.build_lock():          # the translator writes coq/gen/*.v: one process at a time (C14 and C16 both regenerate)
+        return _regenerate_table(chk, which)
+
+def _regenerate_table(chk, which="Access"):
     scratch = tempfile.mkdtemp(prefix="verif_ls_", dir="/var/tmp")
     try:
         subprocess.check_call(["rsync", "-a", "--exclude", ".git", vlib.REPO.rstrip("/") + "/", scratch + "/"])
